@@ -1425,3 +1425,43 @@ PROPS['C08'] = _lay_props(
 PROPS['C08']['shrink_candidates'] = _c08_shrink
 PROPS['C08']['describe'] = _c08_describe
 PROPS['C08']['stats'] = _c08_stats
+
+# ----------------------------------------------------------------------------- C09 (input chords)
+def _c09_norm(out):
+    # the model names the failing assert / expect, the harness prints the Rust panic message
+    if out.startswith('crash panic'):
+        for needle, site in (('active chords has room', 'active chords has room'),
+                             ('oops overflowed drain queue', 'oops overflowed drain queue'),
+                             ('too many presses in queue', 'too many presses in queue'),
+                             ('overflow.is_ok()', 'drain_releases: presses overflow')):
+            if needle in out:
+                return f'crash indexOOB({site})'
+    return _norm_crash(out)
+
+
+def _c09_stats(cases, impl):
+    import collections
+    d = collections.Counter(_lay_stats(cases, impl))
+    v2hex = 'defchordsv2'.encode().hex()
+    for c, i in zip(cases, impl):
+        v2 = v2hex in c.split()[2]
+        d['chords_v2' if v2 else 'chords_v1'] += 1
+        if i.startswith('crash'):
+            d['crash_v2_active_chords_full' if 'active chords has room' in i else 'crash_other'] += 1
+        if v2 and re.search(r'[K,](\d+),(?:\d+,)*\1[, ]', i):
+            d['v2_same_key_twice_in_list'] += 1
+    return dict(d)
+
+
+PROPS['C09'] = _lay_props(['KVerif.Props.C09'],
+    'chords v1 (defchords) and v2 (defchordsv2) tables over 2-5 participating keys whose actions are marker keys (11 fixed tables: single chord, with singletons, overlapping, sub-chords, undefined supersets; plus random tables; v2: both release behaviours, entries disabled on the second layer, chords-v2-min-idle variants); for every target set S (|S| >= 2, defined or not): every permutation of the press order x every release order x timing variants (span first-to-last press 0, 1, T-2, T-1, T, T+1, 2T+3 placed before the last press / after the first press / spread; release immediately or after the timeout), exhaustive for |S| <= 4 (v2 families sampled in the quick tier) and sampled for |S| = 5; the same sets typed on the layer where the keys are plain / the chord is disabled; a non-chord key inside the window; the capacity scenario (one chord pressed 9-12 times without release); random physically consistent histories over chord keys, plain keys and the layer key incl. bursts > 32 events; non-trivial = output changed at least twice; distinct = distinct case line. Oracle on the implementation trace. v1: for clean histories the sequence of marker down-transitions equals the greedy decomposition of the press order computed from the table alone (whole set fires once, no participant singleton, two bursts a timeout apart fire separately, a non-chord key inside the window splits it and is delivered in between); no marker on the plain layer. v2: a defined set completed within its timeout fires its marker exactly once (never two copies), no participant key is output, the marker goes up after the first / last participant release per the release rule and not before; completed later than the timeout it does not fire. Both: everything up at the end and within a bound after the last release; keys outside the chords in press order',
+    'C09o',
+    extra_trusted=['Model/ChordsV2.lean as a transcription of keyberon/src/chord.rs and of the chords-v2 hooks of Layout::event / Layout::tick (checked differentially per run incl. a digest of the private ChordsV2 state through hook verif_digest_chv2)'],
+    assumptions=['OS output is taken as the key-code list of the layout per tick (the kanata diffing layer is modelled separately)',
+                 'v1 theorems assume the table masks are pairwise distinct where they identify "the" chord of a key set (the parser keeps them in a hash map) and delay <= 65535 (u16)',
+                 'v2 integration is a wrapper around the layout model: a one-shot key evicted from the full one-shot list (17 active) re-enters Layout::event, which in Rust feeds the v2 queue; the model feeds the layout queue (not generated)',
+                 'the statement is silent on which sub-chords fire for an undefined v2 key set (v2 has no decomposition), and on a v2 chord completed exactly `timeout` ticks after its first key (the implementation\'s window is one tick longer than configured)'])
+# crash sites are compared by name (the model names the assert, the harness prints the panic text)
+PROPS['C09']['norm_impl'] = _c09_norm
+PROPS['C09']['norm_model'] = lambda o: o if o.startswith('crash indexOOB(') else _norm_crash(o)
+PROPS['C09']['stats'] = _c09_stats
